@@ -72,6 +72,11 @@ THEOREMS = [
     "C10_read_cif_handler_raises",
     "C10_read_cif_guarded_atoms",
     "C10_read_cif_guarded_strict",
+    "C10_read_cif_blocks_one_site",
+    "C10_file_layer_cif_any_text",
+    "C10_file_layer_legal_opening",
+    "C10_file_layer_other_suffix",
+    "C10_file_layer_nonvacuous",
     "C10_guard_nonvacuous",
 ]
 
@@ -1123,6 +1128,253 @@ def others_oracle(rows, before, after, state, notes, conv, absent=()):
 # ---------------------------------------------------------------------------
 
 
+# ---------------------------------------------------------------------------
+# FILE layer of the mmCIF route: legal openings and lexical variants of the whole file, through the real
+# entry points io.get_molecule / main_driver on a FILE, against the PDB encoding of the same atoms.
+
+FILE_XFORMS = (
+    "preamble-magic", "preamble-banner", "preamble-bare-hash", "preamble-blank", "preamble-indent", "data-upper", "data-mixed",
+    "loop-upper", "loop-mixed", "crlf", "cr", "comments", "bom", "quote-single", "quote-double", "text-block", "tabs",
+    "no-final-newline", "suffix-upper", "suffix-mixed",
+)
+# legal by the CIF grammar and read by mmcif_pdbx: tag case is mishandled by /repo (known finding C10-F24); an extra
+# data block without atom_site was (C10-F25, repaired by fix_c10_f25) and must be read now
+FINDING_XFORMS = ("tag-case-category", "tag-case-item", "extra-block-before", "extra-block-after")
+QUOTABLE = ("label_atom_id", "label_comp_id", "label_asym_id", "auth_comp_id", "auth_asym_id", "auth_atom_id", "type_symbol", "group_PDB")
+
+
+def file_variant(rng, rows, before, after, xf):
+    """-> (text, suffix): the mmCIF file of the rows with the lexical variants [xf] applied"""
+    cols = list(ITEMS)
+    cat = "_ATOM_SITE." if "tag-case-category" in xf else "_atom_site."
+    tag = (lambda k: k.lower() if k.startswith("Cartn") or k == "B_iso_or_equiv" else k.upper()) if "tag-case-item" in xf else (lambda k: k)
+    loopkw = "LOOP_" if "loop-upper" in xf else "Loop_" if "loop-mixed" in xf else "loop_"
+    sep = "\t" if "tabs" in xf else " "
+    lines = []
+    if "preamble-magic" in xf:
+        lines.append("#\\#CIF_1.1")
+    if "preamble-banner" in xf:
+        lines += ["# written by some modelling program 1.2 on 2020-01-01", "# title: test"]
+    if "preamble-bare-hash" in xf:
+        lines.append("#")
+    if "preamble-blank" in xf:
+        lines += ["", "   "] if "preamble-magic" in xf or rng.random() < 0.5 else [""]
+    kw = "DATA_" if "data-upper" in xf else "Data_" if "data-mixed" in xf else "data_"
+    if "extra-block-before" in xf:
+        lines += [kw + "comp_list", "#", "_chem_comp.id ALA", "_chem_comp.name ALANINE", "#"]
+    lines.append(("  " if "preamble-indent" in xf else "") + kw + "TEST")
+    lines.append("#")
+    body_before = before.replace("loop_", loopkw).rstrip("\n").split("\n") if before.strip() else []
+    lines += body_before
+    lines.append(loopkw)
+    lines += [cat + tag(k) for k in cols]
+    for r in rows:
+        toks = []
+        for k in cols:
+            v = r[k]
+            q = cif_quote(v)
+            if q == v and v not in (".", "?") and k in QUOTABLE:
+                u = rng.random()
+                if "text-block" in xf and u < 0.08:
+                    q = "\n;" + v + "\n;\n"
+                elif "quote-single" in xf and u < 0.5:
+                    q = "'" + v + "'"
+                elif "quote-double" in xf and u < 0.5:
+                    q = '"' + v + '"'
+            toks.append(q)
+        line = ""
+        for t in toks:
+            line += t if (not line or line.endswith("\n")) else sep + t
+        lines.append(line.rstrip("\n") if line.endswith(";\n") else line)
+    lines.append("#")
+    lines += after.replace("loop_", loopkw).rstrip("\n").split("\n") if after.strip() else []
+    if "extra-block-after" in xf:
+        lines += [kw + "comp_list", "#", "_chem_comp.id ALA", "_chem_comp.name ALANINE", "#"]
+    if "comments" in xf:
+        out, intext = [], False
+        for ln in lines:
+            for part in ln.split("\n"):
+                pass
+            if ln.startswith(";") or "\n;" in ln:
+                out.append(ln)
+                continue
+            if ln and not ln.startswith("#") and rng.random() < 0.2 and "'" not in ln and '"' not in ln:
+                ln = ln + "  # a comment"
+            out.append(ln)
+            if ln == "#" and rng.random() < 0.3:
+                out.append("# ---- next category ----")
+        lines = out + ["# end of file"]
+    nl_ = "\r\n" if "crlf" in xf else "\r" if "cr" in xf else "\n"
+    text = "\n".join(lines)
+    text = text if "no-final-newline" in xf else text + "\n"
+    text = text.replace("\n", nl_)
+    if "bom" in xf:
+        text = "﻿" + text
+    suffix = ".CIF" if "suffix-upper" in xf else rng.choice([".Cif", ".cIF"]) if "suffix-mixed" in xf else ".cif"
+    return text, suffix
+
+
+def gen_xforms(rng, k):
+    """a small set of legal variants; every single variant is hit on its own during the first cases"""
+    singles = list(FILE_XFORMS)
+    if k < len(singles):
+        xf = {singles[k]}
+    else:
+        xf = set(rng.sample(singles, rng.choice([2, 3, 4, 6])))
+    for a, b in (("data-upper", "data-mixed"), ("loop-upper", "loop-mixed"), ("crlf", "cr"), ("suffix-upper", "suffix-mixed")):
+        if a in xf and b in xf:
+            xf.discard(b)
+    return xf
+
+
+def routed_get_molecule(path):
+    """io.get_molecule(path) with the two readers wrapped to see which one the file layer chose.
+    -> (route 'cif'|'pdb'|'none', records | exception name, is_cif | None)"""
+    from pdb2pqr import cif, pdb
+    from pdb2pqr import io as pio
+
+    called = []
+    o_c, o_p = cif.read_cif, pdb.read_pdb
+
+    def rc(fh):
+        called.append("cif")
+        return o_c(fh)
+
+    def rp(fh):
+        called.append("pdb")
+        return o_p(fh)
+
+    cif.read_cif, pdb.read_pdb = rc, rp
+    try:
+        try:
+            plist, is_cif = pio.get_molecule(str(path))
+            res = [rec_tuple(x) for x in plist if isinstance(x, (pdb.ATOM, pdb.HETATM))]
+        except Exception as e:  # noqa: BLE001
+            res, is_cif = type(e).__name__, None
+    finally:
+        cif.read_cif, pdb.read_pdb = o_c, o_p
+    return (called[0] if called else "none"), res, is_cif
+
+
+def write_text_file(path, text):
+    with open(path, "w", encoding="utf-8", newline="") as fh:
+        fh.write(text)
+
+
+def file_oracle(ctx, rows, text, suffix, xf, ref):
+    """-> (observed route, None | (sig, what, detail)).  ref = records of the PDB encoding through io.get_molecule."""
+    d = ctx.scratch_dir()
+    f = d / ("variant" + suffix)
+    write_text_file(f, text)
+    try:
+        route, res, is_cif = routed_get_molecule(f)
+    finally:
+        f.unlink()
+    variant = "+".join(sorted(xf)) or "plain"
+    detail = {"kind": "file", "rows": rows, "suffix": suffix, "text": text, "xf": sorted(xf), "route": route}
+    if route != "cif":
+        return route, ({"site": "io.get_molecule", "condition": f"mmcif-file-routed-to-{route}-reader", "variant": variant},
+                       f"a legal mmCIF file named *{suffix} is not read by the mmCIF reader (route: {route}); the PDB encoding of the same atoms is read", detail)
+    if isinstance(res, str):
+        return route, ({"site": "cif.read_cif", "condition": f"raises-{res}", "variant": variant},
+                       f"a legal mmCIF file makes the mmCIF route raise {res}; the PDB encoding of the same atoms is read", detail)
+    if is_cif is not True or res != ref:
+        return route, ({"site": "io.get_molecule", "condition": "records-differ-from-pdb-encoding" if is_cif else "is_cif-flag-false", "variant": variant},
+                       "the mmCIF file gives other coordinate records than the PDB encoding of the same atoms", dict(detail, n_cif=len(res), n_pdb=len(ref)))
+    return route, None
+
+
+def pdb_reference(ctx, rows):
+    d = ctx.scratch_dir()
+    f = d / "reference.pdb"
+    write_text_file(f, "".join(pdb_line(r) + "\n" for r in rows) + "END\n")
+    route, res, _ = routed_get_molecule(f)
+    f.unlink()
+    return res
+
+
+def file_layer_stage(ctx, escalate):
+    """generated file variants: model tie (classify_input vs the reader io.get_molecule calls) + search"""
+    nfile = (1500 if ctx.thorough else 500) if escalate else (800 if ctx.thorough else 110)
+    cases = []
+    for k in range(nfile):
+        rows = [gen_row(ctx.rng, ctx.rng.choice([None] * 5 + ["alt", "name4", "charge", "label"])) for _ in range(ctx.rng.choice([1, 2, 3]))]
+        if not all(expressible(r) and numeric(r) for r in rows):
+            continue
+        xf = gen_xforms(ctx.rng, k)
+        if k % 9 == 8:
+            xf.add(ctx.rng.choice(FINDING_XFORMS))
+        before, after, _state, _notes = gen_other(ctx.rng, rows, ctx.rng.choice(["full", "no-optional"]))
+        text, suffix = file_variant(ctx.rng, rows, before, after, xf)
+        cases.append((rows, text, suffix, xf))
+    # suffixes the file layer sends to the PDB reader (model tie only: how io.get_molecule treats them)
+    other = [(".mmcif", "data_X\n"), (".pdb", "data_X\n"), (".ent", "#\n"), ("", "data_X\n"), (".cif.txt", "data_X\n"), (".txt", "ATOM\n")]
+    terms = [f"show_route (classify_input {core.coq_string(sfx)} {core.coq_string_bytes(t.lstrip(chr(0xfeff))[:120])}) ++ \"|\" ++ show_bool (legal_opening {core.coq_string_bytes(t.lstrip(chr(0xfeff))[:400])})"
+             for (_r, t, sfx, _x) in cases]
+    terms += [f"show_route (classify_input {core.coq_string(sfx)} {core.coq_string_bytes(t)}) ++ \"|-\"" for sfx, t in other]
+    try:
+        mres = core.run_cases("C10file", HEADER, terms, chunk=60)
+    except core.CoqEvalError as e:
+        mres = None
+        ctx.broke("correspondence-broken", "file-layer model evaluation failed", str(e))
+    nbad = 0
+    for i, (rows, text, suffix, xf) in enumerate(cases):
+        ref = pdb_reference(ctx, rows)
+        route, fail = file_oracle(ctx, rows, text, suffix, xf, ref)
+        ctx.evaluated(("file", tuple(sorted(xf)), suffix), True)
+        ctx.count("file:" + ("agree" if fail is None else "fail:" + fail[0]["condition"]))
+        if mres is not None:
+            ctx.cov["correspondence_cases"] += 1
+            mroute, mlegal = mres[i].split("|")
+            legal_expected = not (set(xf) & {"extra-block-before"}) or True
+            if mroute != route or mlegal != "1":
+                nbad += 1
+                ctx.cov["correspondence_disagreements"] += 1
+                if nbad <= 3:
+                    ctx.broke("correspondence-broken", "Model.CifLine.classify_input / legal_opening vs io.get_molecule",
+                              f"model route={mroute} legal_opening={mlegal}; io.get_molecule called the {route} reader; variant {sorted(xf)} suffix {suffix}",
+                              {"text_head": text[:300], "suffix": suffix})
+        if fail is not None:
+            ctx.fail(fail[0], fail[1], fail[2])
+    if mres is not None:
+        d = ctx.scratch_dir()
+        for j, (sfx, t) in enumerate(other):
+            f = d / ("other" + sfx)
+            write_text_file(f, t)
+            route, _res, _ = routed_get_molecule(f)
+            f.unlink()
+            ctx.cov["correspondence_cases"] += 1
+            if mres[len(cases) + j].split("|")[0] != route:
+                ctx.cov["correspondence_disagreements"] += 1
+                ctx.broke("correspondence-broken", "Model.CifLine.classify_input vs io.get_molecule (other suffixes)", f"suffix {sfx!r}: model {mres[len(cases) + j]} real {route}", {"suffix": sfx})
+    return cases
+
+
+def file_e2e(ctx, st, xf, ff):
+    """a builder structure as an mmCIF FILE variant through main_driver, against its PDB file.  -> None | (sig, what, detail)"""
+    from harness import builder as B
+
+    rows = atoms_to_rows(st["atoms"])
+    before, after, _s, _n = gen_other(ctx.rng, rows, "full")
+    text, suffix = file_variant(ctx.rng, rows, before, after, xf)
+    ptxt = B.to_pdb(st["atoms"], serial_start=None, ter=True)
+    d = ctx.scratch_dir()
+    args = [f"--ff={ff}", "--keep-chain"]
+    rp = B.run_pdb2pqr(ptxt, args, workdir=d / "fp", log_level=logging.ERROR)
+    rc = B.run_pdb2pqr(text, args, workdir=d / "fc", log_level=logging.ERROR, input_name="input" + suffix)
+    variant = "+".join(sorted(xf)) or "plain"
+    detail = {"kind": "file-e2e", "xf": sorted(xf), "suffix": suffix, "pdb_text": ptxt, "cif_text": text, "args": args}
+    ep, ec = type(rp["exc"]).__name__ if rp["exc"] else None, type(rc["exc"]).__name__ if rc["exc"] else None
+    if ep is None and (ec is not None or rc["pqr_text"] is None):
+        return {"site": "main.main_driver", "condition": f"mmcif-file-run-fails:{ec}", "variant": variant}, "the PDB file runs, the mmCIF file of the same atoms does not", detail
+    if ep is not None:
+        return None
+    ap, ac = [pqr_key(x) for x in B.parse_pqr(rp["pqr_text"])], [pqr_key(x) for x in B.parse_pqr(rc["pqr_text"])]
+    if ap != ac:
+        return {"site": "main.main_driver", "condition": "pqr-atoms-differ", "variant": variant}, "PQR atoms differ between the PDB file and the mmCIF file", detail
+    return None
+
+
 def load_corpus():
     cases = []
     d = core.CORPUS / "C10"
@@ -1358,6 +1610,9 @@ def run(ctx):
                 ctx.fail(sig, what, {"kind": "others", "rows": rows, "absent": list(absent), "before": before, "after": after, "state": state,
                                      "notes": notes, "conv": conv, **det})
 
+    # the FILE layer: legal openings / lexical variants of the whole file through io.get_molecule
+    file_layer_stage(ctx, escalate)
+
     # builder structures, both encodings, through io.get_molecule and the whole pipeline
     t0 = time.time()
     nst = 30 if ctx.thorough else (15 if escalate else 8)
@@ -1408,6 +1663,18 @@ def run(ctx):
             ctx.count(f"e2e-others:{conv}:{mode}:" + ("agree" if r2 is None else "differ:" + r2[0]["condition"]))
             if r2 is not None:
                 ctx.fail(r2[0], r2[1], {"kind": "structure", **r2[2]})
+    # ... and through main_driver on a file (PQR atoms, q, r against the PDB file's)
+    for i, st in enumerate(structs[: (8 if ctx.thorough or escalate else 4)]):
+        xf = gen_xforms(ctx.rng, ctx.rng.randrange(7) if i % 2 == 0 else 99)
+        try:
+            r3 = file_e2e(ctx, st, xf, ffs[i % len(ffs)])
+        except Exception as e:  # noqa: BLE001
+            ctx.notes.append(f"file-layer end-to-end harness error: {e!r}")
+            continue
+        ctx.evaluated(("file-e2e", st["variant"], tuple(sorted(xf))), True)
+        ctx.count("file-e2e:" + ("agree" if r3 is None else "fail:" + r3[0]["condition"]))
+        if r3 is not None:
+            ctx.fail(r3[0], r3[1], r3[2])
     ctx.count("others:handler-raises-absorbed-by-read_cif", OTHERS_STATS["absorbed"])
     ctx.count("others:absorbed-but-not-in-error-list", OTHERS_STATS["absorbed_unreported"])
     ctx.count("e2e:wall_s", int(time.time() - t0))
@@ -1454,6 +1721,22 @@ def replay(ctx, data):
             return 0
         print("replay: FAILS:", res["what"], "| signature:", json.dumps(res["sig"]), "|", json.dumps(res["detail"])[:700])
         return 1
+    if case.get("kind") == "file":
+        ref = pdb_reference(ctx, case["rows"])
+        route, fail = file_oracle(ctx, case["rows"], case["text"], case["suffix"], set(case["xf"]), ref)
+        print("replay:", ("FAILS: " + fail[1] + " | " + json.dumps(fail[0])) if fail else f"passes (route {route}, records equal the PDB encoding's)")
+        ctx.cleanup()
+        return 1 if fail else 0
+    if case.get("kind") == "file-e2e":
+        from harness import builder as B
+
+        d = ctx.scratch_dir()
+        rp = B.run_pdb2pqr(case["pdb_text"], case["args"], workdir=d / "fp", log_level=logging.ERROR)
+        rc = B.run_pdb2pqr(case["cif_text"], case["args"], workdir=d / "fc", log_level=logging.ERROR, input_name="input" + case["suffix"])
+        ok = rp["pqr_text"] is not None and rc["pqr_text"] is not None and [pqr_key(x) for x in B.parse_pqr(rp["pqr_text"])] == [pqr_key(x) for x in B.parse_pqr(rc["pqr_text"])]
+        print("replay:", "passes" if ok else f"FAILS: pdb exc={rp['exc']!r} cif exc={rc['exc']!r}")
+        ctx.cleanup()
+        return 0 if ok else 1
     if case.get("kind") == "others":
         res = others_oracle(case["rows"], case["before"], case["after"], case["state"], case["notes"], case["conv"], tuple(case.get("absent", ())))
         for sig, what, _det in res:
